@@ -14,8 +14,15 @@ equation k = the string "e<k>" (k >= len(eqs): unknown name); variable name n = 
 style: eqs "str" | "op"; vars "str" (name) | "md" (md-variable, restricted if grids are given) | "atom" (one Variable per grid).
 inverter: "default" | "dense" (np.linalg.inv) | "exact" (Gauss-Jordan over Fractions, rounded).
 """
+import atexit
 import itertools
+import json
+import os
 import random
+import select
+import subprocess
+import sys
+import traceback
 import warnings
 from fractions import Fraction
 
@@ -45,7 +52,7 @@ THEOREMS = [
 LEAN_MODULES = ["PorepyVerif.C07.Props"]
 AUDIT = "PorepyVerif/C07/Audit.lean"
 DRIVER = "PorepyVerif/C07/Driver.lean"
-N = {"quick": 50, "thorough": 1200}
+N = {"quick": 50, "thorough": 800}
 RULE = ("md-grids with 1-3 subdomains (dim 0-2, 1-3 cells, instantiated in random order) and 0-2 mortar grids; 2-4 cell variables on "
         "random sub-lists of the subdomains (+0-2 on interfaces); per variable 1-2 equations (its grids split in groups) with a dominant "
         "cell-wise diagonal term, cell-wise linear and bilinear couplings to co-located variables (local: the secondary block is a permuted "
@@ -351,7 +358,7 @@ def _cond(M):
 CAUGHT = (ValueError, KeyError, AssertionError, IndexError, TypeError, np.linalg.LinAlgError, ZeroDivisionError)
 
 
-def impl_run(case):
+def _impl_run(case):
     """The history on the real code; canonical answer per step."""
     w = World(case)
     es = w.es
@@ -529,7 +536,7 @@ def _allclose(a, b, tol=1e-8):
     return a.shape == b.shape and bool(np.all(np.isfinite(a))) and bool(np.all(np.abs(a - b) <= tol * (1 + np.abs(b))))
 
 
-def oracle(case):
+def _oracle(case):
     w = World(case)
     lay = Layout(case)
     J = r = None
@@ -600,6 +607,98 @@ def oracle(case):
             if _cond(Js[np.ix_(srows, scols)]) < COND_MAX and not _allclose(Js[srows] @ X, rs[srows]):
                 return {"what": f"step {i}: expanded vector violates the secondary rows of the full system", "key": "expand-violates-secondary-rows"}
     return None
+
+
+# ----------------------------------------------------------------------------- sandbox for the real code
+# A stale block permutation handed to the numba block inverter (the defect class this property is about) writes out of
+# bounds and can kill the interpreter.  The real code is therefore driven in ONE long-lived worker process; if it dies,
+# the case that was running is reported as a failure of the property and a fresh worker serves the remaining cases.
+_WORKER = None
+IN_WORKER = os.environ.get("C07_WORKER") == "1"
+CALL_TIMEOUT = 120  # seconds for one history (normally well below one second)
+
+
+def _stop_worker():
+    global _WORKER
+    if _WORKER is not None and _WORKER.poll() is None:
+        try:
+            _WORKER.stdin.close()
+            _WORKER.wait(timeout=10)
+        except Exception:
+            _WORKER.kill()
+    _WORKER = None
+
+
+atexit.register(_stop_worker)
+
+
+def _call(fn, case):
+    global _WORKER
+    if _WORKER is None or _WORKER.poll() is not None:
+        env = dict(os.environ, C07_WORKER="1", PYTHONPATH=os.pathsep.join(p for p in sys.path if p))
+        env.setdefault("NUMBA_NUM_THREADS", "2")  # blocks are tiny; 16 spinning OpenMP threads only hurt on a busy machine
+        env.setdefault("OMP_NUM_THREADS", "2")
+        _WORKER = subprocess.Popen([sys.executable, "-c", "import harness.props.c07 as m; m._serve()"],
+                                   cwd=os.path.dirname(os.path.dirname(os.path.dirname(os.path.abspath(__file__)))),
+                                   env=env, stdin=subprocess.PIPE, stdout=subprocess.PIPE, text=True)
+    w = _WORKER
+    line = ""
+    try:
+        w.stdin.write(json.dumps({"fn": fn, "case": case}) + "\n")
+        w.stdin.flush()
+        ready, _, _ = select.select([w.stdout], [], [], CALL_TIMEOUT)
+        if not ready:  # e.g. the numba parallel loop never returns when it is handed inconsistent block sizes
+            w.kill()
+            w.wait()
+            _WORKER = None
+            return {"died": f"no answer within {CALL_TIMEOUT} s, killed"}
+        line = w.stdout.readline()
+    except (BrokenPipeError, OSError):
+        pass
+    if not line:
+        rc = w.wait()
+        _WORKER = None
+        return {"died": f"exit status {rc}"}
+    return json.loads(line)
+
+
+def _serve():
+    """worker loop: protocol on the original stdout, anything the real code prints goes to stderr"""
+    out = os.fdopen(os.dup(1), "w")
+    os.dup2(2, 1)
+    from harness.common import assert_repo
+    assert_repo()
+    for line in sys.stdin:
+        req = json.loads(line)
+        try:
+            res = {"ok": (_impl_run if req["fn"] == "impl" else _oracle)(req["case"])}
+        except Exception as e:
+            res = {"exc": f"{type(e).__name__}: {e}", "tb": traceback.format_exc()[-1500:]}
+        out.write(json.dumps(res) + "\n")
+        out.flush()
+
+
+def impl_run(case):
+    if IN_WORKER:
+        return _impl_run(case)
+    r = _call("impl", case)
+    if "died" in r:
+        raise RuntimeError(f"the real code killed or hung the interpreter ({r['died']}) while running this history")
+    if "exc" in r:
+        raise RuntimeError(r["exc"] + "\n" + r.get("tb", ""))
+    return r["ok"]
+
+
+def oracle(case):
+    if IN_WORKER:
+        return _oracle(case)
+    r = _call("oracle", case)
+    if "died" in r:
+        return {"what": f"the real code killed or hung the interpreter ({r['died']}) while running this history of Schur splits",
+                "key": "interpreter-crash"}
+    if "exc" in r:
+        raise RuntimeError(r["exc"] + "\n" + r.get("tb", ""))
+    return r["ok"]
 
 
 # ----------------------------------------------------------------------------- generator
@@ -726,7 +825,7 @@ def _gen_split(rng, case):
         if not sel or not any(p[1] for p in picks):
             k = rng.randrange(neq)
             sel = [s for s in sel if s[0] != k] + [[k, [eqs[k]["grids"][0]], sty()]]
-            picks = [p for p, s in zip(picks, sel)] if False else [(eqs[s[0]]["diag"], s[1]) for s in sel]
+            picks = [(eqs[s_[0]]["diag"], s_[1]) for s_ in sel]
         rng.shuffle(sel)
         step = {"op": "split", "form": "dict", "eqs": sel}
     # merge picks of the same variable (two equations of one variable)
@@ -833,17 +932,19 @@ def nontrivial(case):
 
 def shrink_candidates(case):
     steps = case["steps"]
-    for i in range(len(steps) - 1, -1, -1):
+    for k in range(1, len(steps)):  # shortest failing prefix first: everything after the failing step goes in one call
+        yield dict(case, steps=steps[:k])
+    for i in range(len(steps) - 2, -1, -1):
         if steps[i]["op"] != "state" or sum(1 for s in steps if s["op"] == "state") > 1:
             yield dict(case, steps=steps[:i] + steps[i + 1:])
-    for k, e in enumerate(case["eqs"]):
-        for fld in ("nonlocal", "quad", "lin"):
-            if e[fld]:
-                e2 = dict(e, **{fld: e[fld][:-1]})
-                yield dict(case, eqs=case["eqs"][:k] + [e2] + case["eqs"][k + 1:])
     for i, s in enumerate(steps):
         if s["op"] == "split" and s["inverter"] != "default":
             yield dict(case, steps=steps[:i] + [dict(s, inverter="default")] + steps[i + 1:])
+    for k, e in enumerate(case["eqs"]):
+        for fld in ("nonlocal", "quad", "lin"):
+            if e[fld]:
+                e2 = dict(e, **{fld: []})
+                yield dict(case, eqs=case["eqs"][:k] + [e2] + case["eqs"][k + 1:])
 
 
 def stats(cases, impl_outs):
